@@ -148,6 +148,9 @@ func checkFormat(o *Out, c *Case, bt *built, sol nextroute.Solution, replay any,
 					u = bt.d.parent[u]
 				}
 				kind = bt.d.units[u].Kind
+				if bt.d.units[u].Loose {
+					kind = "allloose"
+				}
 			}
 			if whereOf != nil {
 				kind += "|" + whereOf(si)
